@@ -10,6 +10,13 @@ Arguments N.sub : simpl never.
 Arguments N.max : simpl never.
 Arguments N.to_nat : simpl never.
 
+Lemma pinv_jumps : forall s hi, PInv s hi ->
+  forall h m, In (h, m) (jumps (all_recs (segs s))) -> m <= newest (segs s) /\ h < m.
+Proof.
+  intros s hi HP h m H. split; [|exact (p_jumps _ _ HP h m H)].
+  apply newest_ge. eapply jumps_pmarkers; eauto.
+Qed.
+
 Lemma pinv_choose : forall s hi, PInv s hi -> unflushed s = 0%nat ->
   (forall i, In i (unvalidated (all_recs (segs s))) ->
      i <= newest (segs s) \/ ~ In i (snapfiles s) \/ last_commit (all_recs (segs s)) < i) ->
@@ -398,20 +405,20 @@ Proof.
     + constructor.
     + intros f [].
     + exact Hck.
-    + reflexivity.
+    + intros h m [].
   - unfold running. proj.
     assert (Hn : newest [mkSeg 0 [RSnap 0]] = 0) by reflexivity.
     assert (Hl : last_commit (all_recs [mkSeg 0 [RSnap 0]]) = 0) by reflexivity.
-    constructor; proj; rewrite ?Hn, ?Hl; try lia; try exact I.
-    + unfold rd_inv. proj. rewrite Hl. split; [reflexivity | lia].
-    + split; [simpl; lia | simpl; lia].
-    + split; [lia | intros; discriminate].
-    + constructor.
-    + intros l Hl0. injection Hl0 as <-. reflexivity.
-    + intros i p Hp. discriminate.
-    + intros f [].
-    + intros f Hf. discriminate.
-    + split; [intros; discriminate | reflexivity].
+    assert (Hp0 : forall pr0, pend_idx (mkState [mkSeg 0 [RSnap 0]] 0 0 [] cks (Some []) [] None RcRunning 0 false 0 0 0 RdIdle 0 0 0 0 [] ApIdle 0 0 [] CkIdle false None 0 pr0) = 0) by reflexivity.
+    constructor; proj; rewrite ?Hn, ?Hl, ?Hp0; try lia; try exact I.
+    all: try solve [intros f []]; try solve [intros i p Hp; discriminate]; try solve [intros f Hf; discriminate].
+    all: try solve [constructor].
+    all: try solve [intros l Hl0; injection Hl0 as <-; reflexivity].
+    all: try solve [split; [simpl; lia | simpl; lia]].
+    all: try solve [split; [left; lia | intros; discriminate]].
+    all: try solve [split; [intros; discriminate | intros; discriminate]].
+    all: try solve [unfold rd_inv; proj; rewrite Hl; split; [reflexivity | lia]].
+    all: try solve [split; [lia | left; lia]].
 Qed.
 
 Lemma inv_init : forall c, Inv c init_state.
@@ -435,13 +442,15 @@ Proof.
   assert (Hn0 : newest (segs s) = 0) by lia.
   pose proof (p_new_in _ _ HP) as Hin. rewrite Hn0 in Hin.
   pose proof (p_first _ _ HP) as Hf. rewrite Hn0 in Hf. unfold hd_first in Hf.
-  destruct (read_all_chain _ _ _ 0 (p_local _ _ HP) (p_chain _ _ HP) ltac:(unfold lo_of; lia) Hf Hin) as [cm' Ra'].
+  pose proof (pinv_jumps _ _ HP) as HJ. rewrite Hn0 in HJ.
+  destruct (read_all_chain _ _ _ 0 HJ (p_chain _ _ HP) ltac:(unfold lo_of; lia) Hf Hin) as [cm' Ra'].
   rewrite Ra in Ra'. injection Ra' as Er _.
   assert (Hhi : hi = 0). { destruct (N.eq_dec hi 0); auto. rewrite range_cons in Er by lia. discriminate. }
   assert (Hak : acked s = 0) by (pose proof (p_acked _ _ HP); lia).
   assert (Hsf : snapfiles s = []).
   { destruct (snapfiles s) as [|f l] eqn:Es; [reflexivity|exfalso].
-    pose proof (p_files_le _ _ HP f ltac:(rewrite Es; left; reflexivity)).
+    destruct (p_files_le _ _ HP f ltac:(rewrite Es; left; reflexivity)) as [Hle|Hfl].
+    2:{ pose proof (Hfl 0%nat ltac:(lia)) as Hh. rewrite drop_tail_0 in Hh. assert (X : has_state (all_recs (segs s)) = false) by exact Hs. congruence. }
     assert (f = 0) by lia. subst f. apply (p_nozero _ _ HP). rewrite Es. left. reflexivity. }
   rewrite Hak, Hsf. apply inv_fresh. exact (p_ckpts _ _ HP).
 Qed.
@@ -454,6 +463,7 @@ Lemma replay_inv : forall c s hi i n lastp commit s',
   PInv s hi -> unflushed s = 0%nat -> rdp s = RdIdle -> app s = ApIdle -> sns s = [] -> ckp s = CkIdle -> pg_wal s = false ->
   pg_snap s = None -> queue s = [] -> wstate s = false -> restoring s = None ->
   i = newest (segs s) -> latest s <= i -> (forall f, In f (snapfiles s) -> f <= i) -> engine s = Some (range 0 i) ->
+  (forall j, In j (unvalidated (all_recs (segs s))) -> j <= newest (segs s) \/ ~ In j (snapfiles s)) ->
   match read_all (segs s) i, covering (segs s) i with
   | Ok (ents, cm), Some p =>
       if negb (n =? N.of_nat (length ents)) || negb (lastp =? last_of ents) || negb (commit =? cm) then Err R_ARG
@@ -464,12 +474,13 @@ Lemma replay_inv : forall c s hi i n lastp commit s',
   end = Ok s' ->
   Inv c s'.
 Proof.
-  intros c s hi i n lastp commit s' HP U Hrd Hap Hsn Hck Hpw Hps Hq Hws Hrst Hi Hlat Hfiles Heng H.
+  intros c s hi i n lastp commit s' HP U Hrd Hap Hsn Hck Hpw Hps Hq Hws Hrst Hi Hlat Hfiles Heng Hunv H.
   pose proof (p_new_in _ _ HP) as Hin. rewrite <- Hi in Hin.
   pose proof (p_first _ _ HP) as Hf. rewrite <- Hi in Hf. unfold hd_first in Hf.
   pose proof (pinv_newest_le_hi _ _ HP) as Hle. rewrite <- Hi in Hle.
   pose proof (pinv_lc0 _ _ HP) as Hlc. rewrite <- Hi in Hlc.
-  destruct (read_all_chain _ _ _ i (p_local _ _ HP) (p_chain _ _ HP) ltac:(unfold lo_of; lia) Hf Hin) as [cm Ra].
+  pose proof (pinv_jumps _ _ HP) as HJ. rewrite <- Hi in HJ.
+  destruct (read_all_chain _ _ _ i HJ (p_chain _ _ HP) ltac:(unfold lo_of; lia) Hf Hin) as [cm Ra].
   destruct (read_all_commit _ _ _ _ Ra) as [p [Hcov [Hcm [Hp Hpf]]]].
   rewrite Ra, Hcov in H.
   destruct (negb (n =? N.of_nat (length (range i hi))) || negb (lastp =? last_of (range i hi)) || negb (commit =? cm)) eqn:G; [discriminate|].
@@ -498,6 +509,10 @@ Proof.
   all: try solve [intros f Hf0; rewrite Hps in Hf0; discriminate].
   all: try solve [split; [intros Hw; rewrite Hpw in Hw; discriminate | exact Hrst]].
   all: try solve [rewrite Hck; exact I].
+  - split; [left; exact Hlat | intros lat Hl; rewrite Hck in Hl; discriminate].
+  - rewrite Hap. intros l Hl. rewrite Heng in Hl. injection Hl as <-. reflexivity.
+  - intros j Hj. destruct (Hunv j Hj) as [X|X]; [left; lia | right; left; exact X].
+  - split; [intros Hw; rewrite Hpw in Hw; discriminate | intros j Hj; rewrite Hrst in Hj; discriminate].
 Qed.
 
 Lemma step_rc_replay : forall c s s' n lastp commit, Inv c s -> step c s (EvRcReplay n lastp commit) = Ok s' -> Inv c s'.
@@ -508,9 +523,11 @@ Proof.
     rinv HV U Hrd Hap Hsn Hck Hpw Hps Hq Hrc.
   - (* restored from the chosen snapshot *)
     destruct Hrc as [A [B [C [D [E F]]]]].
-    eapply (replay_inv c s hi i n lastp commit s'); eauto. lia.
+    eapply (replay_inv c s hi i n lastp commit s'); eauto; try lia.
+    intros j Hj. destruct (Hun j Hj) as [X|[X|[X _]]]; [left; exact X | right; exact X | discriminate].
   - (* no snapshot: from the beginning of the log *)
     destruct Hrc as [A [B [C [D F]]]].
     eapply (replay_inv c s hi 0 n lastp commit s'); eauto; try lia.
     + intros f Hf. rewrite C in Hf. destruct Hf.
+    + intros j Hj. destruct (Hun j Hj) as [X|[X|[X _]]]; [left; exact X | right; exact X | discriminate].
 Qed.
